@@ -8,14 +8,18 @@ parameter, together with the guards around the calls:
   State.mslice / State.set_mslice / Message.calldata_slice      (the (start, size) wrappers)
   copy_returndata_to_memory                                     (min, partial slice or whole object)
   the OP_CALLDATACOPY / OP_CODECOPY / OP_EXTCODECOPY / OP_RETURNDATACOPY / OP_MCOPY branches of
-  SEVM.run: operand pop order, `if size:` guard, arguments of the source slice, destination
+  SEVM.run: operand pop order, the guard of the copy, arguments of the source slice, destination
   the OP_MSIZE rounding; OP_MSTORE / OP_MLOAD / OP_MSTORE8 / State.ret and the memory statements of
   SEVM.call are shape-checked only (they pass operands straight through).
 
-Fail-closed: every statement of the translated bodies must have one of the whitelisted shapes; the
-MAX_MEMORY_SIZE guards (`if <cmp>: raise OutOfGasError(...)`) are recognised and skipped.
+Local variable names are free (a generated definition takes the Python names of the operands as
+parameter names), bookkeeping assignments and the MAX_MEMORY_SIZE guards
+(`if <cmp>: raise OutOfGasError(...)`) may come in any order, guards may be any translatable
+boolean expression over the operands.  Fail-closed otherwise: every statement of the translated
+bodies must have one of the whitelisted shapes.
 Model/MemOpsModel.v is written against these definitions; Proofs/MemOpsProofs.v proves that they
-are the wiring the flat-array semantics needs (a changed wiring breaks those lemmas).
+meet what the flat-array semantics needs (skip only when nothing is to be copied, start = offset,
+stop = offset + size, out-of-bounds test of RETURNDATACOPY, ...): a changed wiring breaks those lemmas.
 """
 import ast
 
@@ -24,6 +28,8 @@ from .pyexpr import TranslateError, Translator, find_function, strip_docstring
 NAME = "T-memwire"
 SRC = "sevm.py"
 OUT = "GenMemWire.v"
+
+FUNCS = {"min": ("Z.min", "Z", ["Z", "Z"]), "max": ("Z.max", "Z", ["Z", "Z"])}
 
 
 def _u(node):
@@ -57,22 +63,23 @@ class _Subst(ast.NodeTransformer):
 
 
 class Ctx:
-    """params: python names that are inputs (Z); lets: local name -> Gallina text over the params"""
+    """params: Gallina parameters (Z); env: python name -> Gallina text over the params;
+    table: python sub-expression (source text) -> python name standing for it"""
 
     def __init__(self, params, table=None):
         self.params = list(params)
         self.env = {p: p for p in params}
         self.table = dict(table or {})
 
-    def z(self, node):
+    def _tr(self, node):
         node = _Subst(self.table).visit(ast.parse(_u(node), mode="eval").body)
-        tr = Translator(names=self.env, funcs={"min": ("Z.min", "Z", ["Z", "Z"])})
-        return tr.tr(node).as_Z()
+        return Translator(names=self.env, funcs=FUNCS).tr(node)
+
+    def z(self, node):
+        return self._tr(node).as_Z()
 
     def b(self, node):
-        node = _Subst(self.table).visit(ast.parse(_u(node), mode="eval").body)
-        tr = Translator(names=self.env, funcs={"min": ("Z.min", "Z", ["Z", "Z"])})
-        return tr.tr(node).as_bool()
+        return self._tr(node).as_bool()
 
     def bind(self, name, node):
         self.env[name] = self.z(node)
@@ -86,6 +93,8 @@ class Out:
     def add(self, name, params, ty, text, comment=""):
         if name in self.names:
             raise TranslateError(f"T-memwire: internal: duplicate definition {name}")
+        if len(set(params)) != len(params):
+            raise TranslateError(f"T-memwire: {name}: parameter names are not distinct: {params}")
         self.names.add(name)
         self.defs.append((name, list(params), ty, text, comment))
 
@@ -94,7 +103,7 @@ def _is_oog_guard(st):
     """if <comparison>: raise OutOfGasError(...)"""
     return (isinstance(st, ast.If) and not st.orelse and len(st.body) == 1 and isinstance(st.body[0], ast.Raise)
             and isinstance(st.body[0].exc, ast.Call) and _u(st.body[0].exc.func) == "OutOfGasError"
-            and isinstance(st.test, ast.Compare) and "MAX_MEMORY_SIZE" in _u(st.test))
+            and "MAX_MEMORY_SIZE" in _u(st.test))
 
 
 def _assign(st):
@@ -124,104 +133,110 @@ def _call_args(call, names):
     return [got[n] for n in names]
 
 
-def _is_not(node, name):
-    return isinstance(node, ast.UnaryOp) and isinstance(node.op, ast.Not) and isinstance(node.operand, ast.Name) and node.operand.id == name
+def _params(fn, n, what):
+    ps = [a.arg for a in fn.args.args]
+    if len(ps) != n + 1 or ps[0] != "self" or fn.args.vararg or fn.args.kwarg or fn.args.kwonlyargs:
+        _fail(fn, f"{what}: (self, {n} parameters) expected")
+    return ps[1:]
+
+
+def _is_early_return(st, value_text):
+    """if <test>: return [<value_text>]"""
+    if not (isinstance(st, ast.If) and not st.orelse and len(st.body) == 1 and isinstance(st.body[0], ast.Return)):
+        return False
+    v = st.body[0].value
+    return (v is None and value_text is None) or (v is not None and value_text is not None and _u(v) == value_text)
 
 
 # ----------------------------------------------------------------- the (start, size) wrappers
 
-def tr_mslice(tree, out):
-    fn = find_function(tree, "mslice", cls="State")
-    if [a.arg for a in fn.args.args] != ["self", "loc", "size"]:
-        _fail(fn, "State.mslice: parameters")
+def tr_wrapper(out, fn, what, pfx, c, early_value, early_name, final_func, final_names, final_is_return, extra_check=None, len_of=None):
+    """bookkeeping assignments / OutOfGas guards / at most one early return in any order, then the final call"""
     body = strip_docstring(fn.body)
-    c = Ctx(["loc", "size"])
-    st = body[0]
-    if not (isinstance(st, ast.If) and not st.orelse and _is_not(st.test, "size") and len(st.body) == 1
-            and isinstance(st.body[0], ast.Return) and _u(st.body[0].value) == "ByteVec()"):
-        _fail(st, "State.mslice: `if not size: return ByteVec()` expected first")
-    out.add("mslice_empty", ["size"], "bool", Ctx(["size"]).b(st.test), "State.mslice: `if not size: return ByteVec()`")
-    rest = body[1:]
-    ret = None
-    for st in rest:
+    if not body:
+        _fail(fn, f"{what}: empty body")
+    early = None
+    for st in body[:-1]:
         a = _assign(st)
         if a is not None:
-            c.bind(a[0], a[1])
+            if len_of is not None and _u(a[1]) == f"len({len_of[0]})":
+                c.env[a[0]] = len_of[1]
+            else:
+                c.bind(a[0], a[1])
         elif _is_oog_guard(st):
             continue
-        elif isinstance(st, ast.Return) and st is rest[-1]:
-            ret = st.value
+        elif early_name is not None and early is None and _is_early_return(st, early_value):
+            early = c.b(st.test)
         else:
-            _fail(st, "State.mslice: unexpected statement")
-    if ret is None or not (isinstance(ret, ast.Call) and _u(ret.func) == "self.memory.slice"):
-        _fail(fn, "State.mslice: must end with `return self.memory.slice(...)`")
-    a, b = _call_args(ret, ["start", "stop"])
-    out.add("mslice_start", ["loc", "size"], "Z", c.z(a), "State.mslice: self.memory.slice(start=.., stop=..)")
-    out.add("mslice_stop", ["loc", "size"], "Z", c.z(b))
+            _fail(st, f"{what}: unexpected statement")
+    last = body[-1]
+    call = last.value if isinstance(last, ast.Return if final_is_return else ast.Expr) else None
+    if not (isinstance(call, ast.Call) and _u(call.func) == final_func):
+        _fail(last, f"{what}: must end with `{'return ' if final_is_return else ''}{final_func}(...)`")
+    args = _call_args(call, final_names)
+    if early_name is not None:
+        out.add(early_name, c.params, "bool", early if early is not None else "false",
+                f"{what}: the early `return{' ' + early_value if early_value else ''}` is taken when this holds")
+    out.add(f"{pfx}_start", c.params, "Z", c.z(args[0]), f"{what}: {final_func}(start=.., stop=..)")
+    out.add(f"{pfx}_stop", c.params, "Z", c.z(args[1]))
+    if extra_check is not None:
+        extra_check(args, call)
+
+
+def tr_mslice(tree, out):
+    fn = find_function(tree, "mslice", cls="State")
+    ps = _params(fn, 2, "State.mslice")
+    tr_wrapper(out, fn, "State.mslice", "mslice", Ctx(ps), "ByteVec()", "mslice_empty", "self.memory.slice", ["start", "stop"], True)
 
 
 def tr_set_mslice(tree, out):
     fn = find_function(tree, "set_mslice", cls="State")
-    if [a.arg for a in fn.args.args] != ["self", "loc", "data"]:
-        _fail(fn, "State.set_mslice: parameters")
-    body = strip_docstring(fn.body)
-    c = Ctx(["loc", "size"])
-    a0 = _assign(body[0])
-    if a0 is None or a0[0] != "size" or _u(a0[1]) != "len(data)":
-        _fail(body[0], "State.set_mslice: `size = len(data)` expected first")
-    st = body[1]
-    if not (isinstance(st, ast.If) and not st.orelse and _is_not(st.test, "size") and len(st.body) == 1
-            and isinstance(st.body[0], ast.Return) and st.body[0].value is None):
-        _fail(st, "State.set_mslice: `if not size: return` expected")
-    out.add("set_mslice_skip", ["size"], "bool", Ctx(["size"]).b(st.test), "State.set_mslice: size = len(data); `if not size: return`")
-    last = None
-    for st in body[2:]:
-        a = _assign(st)
-        if a is not None:
-            c.bind(a[0], a[1])
-        elif _is_oog_guard(st):
-            continue
-        elif isinstance(st, ast.Expr) and st is body[-1]:
-            last = st.value
-        else:
-            _fail(st, "State.set_mslice: unexpected statement")
-    if last is None or not (isinstance(last, ast.Call) and _u(last.func) == "self.memory.set_slice"):
-        _fail(fn, "State.set_mslice: must end with `self.memory.set_slice(...)`")
-    a, b, v = _call_args(last, ["start", "stop", "value"])
-    if _u(v) != "data":
-        _fail(last, "State.set_mslice: the value written must be `data`")
-    out.add("set_mslice_start", ["loc", "size"], "Z", c.z(a), "State.set_mslice: self.memory.set_slice(start=.., stop=.., value=data)")
-    out.add("set_mslice_stop", ["loc", "size"], "Z", c.z(b))
+    ps = _params(fn, 2, "State.set_mslice")
+    loc, data = ps
+    if "size" == loc:
+        _fail(fn, "State.set_mslice: parameter name clash")
+
+    def check(args, call):
+        if _u(args[2]) != data:
+            _fail(call, f"State.set_mslice: the value written must be the `{data}` parameter")
+
+    tr_wrapper(out, fn, "State.set_mslice", "set_mslice", Ctx([loc, "size"]), None, "set_mslice_skip", "self.memory.set_slice",
+               ["start", "stop", "value"], False, extra_check=check, len_of=(data, "size"))
 
 
 def tr_calldata_slice(tree, out):
     fn = find_function(tree, "calldata_slice", cls="Message")
-    if [a.arg for a in fn.args.args] != ["self", "start", "size"]:
-        _fail(fn, "Message.calldata_slice: parameters")
-    body = strip_docstring(fn.body)
-    c = Ctx(["start", "size"])
-    ret = None
-    for st in body:
+    ps = _params(fn, 2, "Message.calldata_slice")
+    tr_wrapper(out, fn, "Message.calldata_slice", "calldata_slice", Ctx(ps), None, None, "self.data.slice", ["start", "stop"], True)
+
+
+class _Canon(ast.NodeTransformer):
+    def __init__(self, ren):
+        self.ren = ren
+
+    def visit_Name(self, node):
+        return ast.copy_location(ast.Name(id=self.ren.get(node.id, node.id), ctx=node.ctx), node)
+
+
+def canon(stmts):
+    """statements with the assigned local names renamed v0, v1, .. and annotations dropped"""
+    ren = {}
+    for st in stmts:
         a = _assign(st)
-        if a is not None:
-            c.bind(a[0], a[1])
-        elif _is_oog_guard(st):
-            continue
-        elif isinstance(st, ast.Return) and st is body[-1]:
-            ret = st.value
-        else:
-            _fail(st, "Message.calldata_slice: unexpected statement")
-    if ret is None or not (isinstance(ret, ast.Call) and _u(ret.func) == "self.data.slice"):
-        _fail(fn, "Message.calldata_slice: must end with `return self.data.slice(...)`")
-    a, b = _call_args(ret, ["start", "stop"])
-    out.add("calldata_slice_start", ["start", "size"], "Z", c.z(a), "Message.calldata_slice: self.data.slice(start=.., stop=..)")
-    out.add("calldata_slice_stop", ["start", "size"], "Z", c.z(b))
+        if a is not None and a[0] not in ren:
+            ren[a[0]] = f"v{len(ren)}"
+    out = []
+    for st in stmts:
+        a = _assign(st)
+        text = f"{a[0]} = {_u(a[1])}" if a is not None else _u(st)
+        out.append(_u(_Canon(ren).visit(ast.parse(text).body[0])))
+    return out
 
 
 def tr_state_ret(tree):
     fn = find_function(tree, "ret", cls="State")
-    body = [_u(s) for s in strip_docstring(fn.body)]
-    want = ["loc: int = self.mloc(subst)", "size: int = int_of(self.popi(), 'symbolic return data size', subst)", "return self.mslice(loc, size)"]
+    body = canon(strip_docstring(fn.body))
+    want = ["v0 = self.mloc(subst)", "v1 = int_of(self.popi(), 'symbolic return data size', subst)", "return self.mslice(v0, v1)"]
     if body != want:
         raise TranslateError(f"T-memwire: State.ret: body differs from the modelled shape: {body}")
 
@@ -229,40 +244,45 @@ def tr_state_ret(tree):
 # ----------------------------------------------------------------- copy_returndata_to_memory
 
 def tr_copy_returndata(tree, out):
-    fn = find_function(tree, "copy_returndata_to_memory")
-    if [a.arg for a in fn.args.args] != ["returndata", "ret_loc", "ret_size", "ex"]:
-        _fail(fn, "copy_returndata_to_memory: parameters")
+    what = "copy_returndata_to_memory"
+    fn = find_function(tree, what)
+    ps = [a.arg for a in fn.args.args]
+    if len(ps) != 4:
+        _fail(fn, f"{what}: four parameters expected")
+    rd, ret_loc, ret_size, exn = ps
     body = strip_docstring(fn.body)
-    if len(body) != 5:
-        _fail(fn, "copy_returndata_to_memory: five statements expected")
-    a0 = _assign(body[0])
-    if a0 is None or a0[0] != "actual_ret_size" or _u(a0[1]) != "len(returndata)":
-        _fail(body[0], "copy_returndata_to_memory: `actual_ret_size = len(returndata)` expected")
-    a1 = _assign(body[1])
-    if a1 is None or a1[0] != "effective_ret_size":
-        _fail(body[1], "copy_returndata_to_memory: `effective_ret_size = ...` expected")
-    out.add("retcopy_effective", ["ret_size", "actual_ret_size"], "Z", Ctx(["ret_size", "actual_ret_size"]).z(a1[1]),
-            "copy_returndata_to_memory: effective_ret_size")
-    st = body[2]
-    if not (isinstance(st, ast.If) and not st.orelse and _is_not(st.test, "effective_ret_size") and len(st.body) == 1
-            and isinstance(st.body[0], ast.Return) and st.body[0].value is None):
-        _fail(st, "copy_returndata_to_memory: `if not effective_ret_size: return` expected")
-    out.add("retcopy_skip", ["effective_ret_size"], "bool", Ctx(["effective_ret_size"]).b(st.test), "`if not effective_ret_size: return`")
-    a3 = _assign(body[3])
-    c = Ctx(["effective_ret_size", "actual_ret_size"])
-    if a3 is None or a3[0] != "data" or not isinstance(a3[1], ast.IfExp):
-        _fail(body[3], "copy_returndata_to_memory: `data = <slice> if <cond> else returndata` expected")
-    ife = a3[1]
-    if _u(ife.orelse) != "returndata":
-        _fail(ife, "copy_returndata_to_memory: the else arm must be the returndata object itself")
-    if not (isinstance(ife.body, ast.Call) and _u(ife.body.func) == "returndata.slice"):
-        _fail(ife, "copy_returndata_to_memory: the then arm must be returndata.slice(..)")
-    a, b = _call_args(ife.body, ["start", "stop"])
-    out.add("retcopy_partial", c.params, "bool", c.b(ife.test), "data = returndata.slice(..) if <this> else returndata")
-    out.add("retcopy_slice_start", c.params, "Z", c.z(a))
-    out.add("retcopy_slice_stop", c.params, "Z", c.z(b))
-    if _u(body[4]) != "ex.st.set_mslice(ret_loc, data)":
-        _fail(body[4], "copy_returndata_to_memory: `ex.st.set_mslice(ret_loc, data)` expected last")
+    c = Ctx([ret_size, "actual_size"])
+    skip = None
+    data_name = None
+    partial = None
+    for st in body[:-1]:
+        a = _assign(st)
+        if a is not None and _u(a[1]) == f"len({rd})":
+            c.env[a[0]] = "actual_size"
+        elif a is not None and isinstance(a[1], ast.IfExp) and data_name is None:
+            ife = a[1]
+            if _u(ife.orelse) != rd:
+                _fail(ife, f"{what}: the else arm must be the returndata object itself")
+            if not (isinstance(ife.body, ast.Call) and _u(ife.body.func) == f"{rd}.slice"):
+                _fail(ife, f"{what}: the then arm must be {rd}.slice(..)")
+            s0, s1 = _call_args(ife.body, ["start", "stop"])
+            partial = (c.b(ife.test), c.z(s0), c.z(s1))
+            data_name = a[0]
+        elif a is not None:
+            c.bind(a[0], a[1])
+        elif skip is None and _is_early_return(st, None):
+            skip = c.b(st.test)
+        else:
+            _fail(st, f"{what}: unexpected statement")
+    if partial is None:
+        _fail(fn, f"{what}: `data = {rd}.slice(..) if <cond> else {rd}` not found")
+    if _u(body[-1]) != f"{exn}.st.set_mslice({ret_loc}, {data_name})":
+        _fail(body[-1], f"{what}: `{exn}.st.set_mslice({ret_loc}, {data_name})` expected last")
+    out.add("retcopy_skip", c.params, "bool", skip if skip is not None else "false",
+            f"{what}(returndata, ret_loc, {ret_size}, ex), actual_size = len(returndata): nothing is written when this holds")
+    out.add("retcopy_partial", c.params, "bool", partial[0], "data = returndata.slice(start, stop) if <this> else returndata")
+    out.add("retcopy_slice_start", c.params, "Z", partial[1])
+    out.add("retcopy_slice_stop", c.params, "Z", partial[2])
 
 
 # ----------------------------------------------------------------- opcode branches of SEVM.run
@@ -285,195 +305,179 @@ def the_branch(found, name):
     return found[name][0]
 
 
-POP_SHAPES = {
-    # value expression (source text with the message string removed) -> kind
-    "ex.mloc(check_size=False)": "mloc",
-    "ex.mloc(check_size=True)": "mloc-checked",
-    "state.popi()": "popi",
-    "state.pop()": "pop",
-}
-
-
 def _pop_kind(value):
     s = _u(value)
-    if s in POP_SHAPES:
-        return POP_SHAPES[s]
+    if s in ("ex.mloc(check_size=False)", "ex.mloc(check_size=True)", "state.popi()", "state.pop()"):
+        return s
     if isinstance(value, ast.Call) and _u(value.func) == "ex.int_of" and len(value.args) == 2 and _u(value.args[0]) == "state.pop()" \
             and isinstance(value.args[1], ast.Constant) and isinstance(value.args[1].value, str):
         return "int_of"
     return None
 
 
-def _operands(body, names, what, kinds=None):
-    """the first len(names) statements pop the operands, in this order"""
-    if len(body) < len(names):
+def _operands(body, n, what):
+    """the first n statements pop the operands off the stack (top first: that is the EVM operand order);
+    -> (their python names, rest of the body)"""
+    if len(body) < n:
         raise TranslateError(f"T-memwire: {what}: too short")
-    for i, n in enumerate(names):
+    names = []
+    for i in range(n):
         a = _assign(body[i])
-        if a is None or a[0] != n:
-            _fail(body[i], f"{what}: operand {i + 1} must be popped into `{n}` (EVM stack order {names})")
-        k = _pop_kind(a[1])
-        if k is None or (kinds is not None and k not in kinds[i]):
-            _fail(body[i], f"{what}: `{n}` is not read from the stack in a modelled way")
-    return body[len(names):]
+        if a is None or _pop_kind(a[1]) is None:
+            _fail(body[i], f"{what}: operand {i + 1} is not read from the stack in a modelled way")
+        names.append(a[0])
+    if len(set(names)) != n:
+        raise TranslateError(f"T-memwire: {what}: operand names are not distinct: {names}")
+    return names, body[n:]
 
 
-def _size_guard(st, what, var="size"):
-    if not (isinstance(st, ast.If) and not st.orelse and isinstance(st.test, ast.Name) and st.test.id == var):
-        _fail(st, f"{what}: `if {var}:` expected")
-    return st.body
-
-
-def _set_mslice_call(st, what, data_name):
+def _copy_body(inner, what, allow_concretize=False):
+    """X = <source call>(..) ; [X = X.concretize(..)] ; state.set_mslice(D, X)   ->  (source expression, D)"""
+    if len(inner) < 2:
+        raise TranslateError(f"T-memwire: {what}: the copy needs a source slice and a set_mslice")
+    a = _assign(inner[0])
+    if a is None:
+        _fail(inner[0], f"{what}: `<data> = <source slice>` expected")
+    x, val = a
+    rest = inner[1:]
+    if allow_concretize and len(rest) == 2 and _u(rest[0]) == f"{x} = {x}.concretize(ex.path.concretization.substitution)":
+        rest = rest[1:]
+    if len(rest) != 1:
+        _fail(rest[0], f"{what}: unexpected statement between the source slice and set_mslice")
+    st = rest[0]
     if not (isinstance(st, ast.Expr) and isinstance(st.value, ast.Call) and _u(st.value.func) == "state.set_mslice"):
         _fail(st, f"{what}: `state.set_mslice(..)` expected")
-    loc, data = _call_args(st.value, ["loc", "data"])
-    if _u(data) != data_name:
-        _fail(st, f"{what}: the data written must be `{data_name}`")
-    return loc
+    dst, data = _call_args(st.value, ["loc", "data"])
+    if _u(data) != x:
+        _fail(st, f"{what}: the data written must be `{x}`")
+    return val, dst
 
 
-def _emit_copy(out, pfx, params, c, do_test, a1, a2, dst, comment):
-    out.add(f"{pfx}_do", [params[-1]], "bool", Ctx([params[-1]]).b(do_test), comment)
-    out.add(f"{pfx}_a1", params, "Z", c.z(a1), "first / second argument of the source slice, destination of set_mslice")
-    out.add(f"{pfx}_a2", params, "Z", c.z(a2))
-    out.add(f"{pfx}_dst", params, "Z", c.z(dst))
+def _guarded(st, what):
+    if not (isinstance(st, ast.If) and not st.orelse):
+        _fail(st, f"{what}: `if <something to copy>:` expected")
+    return st.test, list(st.body)
+
+
+def _emit_copy(out, pfx, c, test, a1, a2, dst, comment):
+    out.add(f"{pfx}_do", c.params, "bool", c.b(test), comment)
+    out.add(f"{pfx}_a1", c.params, "Z", c.z(a1), "first / second argument of the source slice, destination of set_mslice")
+    out.add(f"{pfx}_a2", c.params, "Z", c.z(a2))
+    out.add(f"{pfx}_dst", c.params, "Z", c.z(dst))
+
+
+def _src_call(val, what, func, names):
+    if not (isinstance(val, ast.Call) and _u(val.func) == func):
+        _fail(val, f"{what}: the source must be {func}(..)")
+    return _call_args(val, names)
 
 
 def tr_calldatacopy(br, out):
     what = "OP_CALLDATACOPY"
-    params = ["loc", "offset", "size"]
-    rest = _operands(br, params, what, [("mloc",), ("int_of",), ("int_of",)])
+    params, rest = _operands(br, 3, what)
     if len(rest) != 1:
-        _fail(rest[0], f"{what}: a single `if size:` expected after the operands")
-    inner = _size_guard(rest[0], what)
-    if len(inner) != 3:
-        _fail(rest[0], f"{what}: three statements expected under `if size:`")
-    a = _assign(inner[0])
-    if a is None or a[0] != "data" or not (isinstance(a[1], ast.Call) and _u(a[1].func) == "ex.message().calldata_slice"):
-        _fail(inner[0], f"{what}: `data = ex.message().calldata_slice(..)` expected")
-    a1, a2 = _call_args(a[1], ["start", "size"])
-    if _u(inner[1]) != "data = data.concretize(ex.path.concretization.substitution)":
-        _fail(inner[1], f"{what}: `data = data.concretize(...)` expected")
-    dst = _set_mslice_call(inner[2], what, "data")
-    _emit_copy(out, "calldatacopy", params, Ctx(params), rest[0].test, a1, a2, dst, "OP_CALLDATACOPY: `if size:` ; ex.message().calldata_slice(a1, a2) ; state.set_mslice(dst, data)")
+        _fail(rest[0], f"{what}: a single guarded copy expected after the operands")
+    test, inner = _guarded(rest[0], what)
+    val, dst = _copy_body(inner, what, allow_concretize=True)
+    a1, a2 = _src_call(val, what, "ex.message().calldata_slice", ["start", "size"])
+    _emit_copy(out, "calldatacopy", Ctx(params), test, a1, a2, dst, f"{what}: operands {params}; `if <do>:` ex.message().calldata_slice(a1, a2) ; state.set_mslice(dst, data)")
 
 
 def tr_codecopy(br, out):
     what = "OP_CODECOPY"
-    params = ["loc", "offset", "size"]
-    rest = _operands(br, params, what, [("mloc",), ("popi",), ("int_of",)])
+    params, rest = _operands(br, 3, what)
     if len(rest) != 1:
-        _fail(rest[0], f"{what}: a single `if size:` expected after the operands")
-    inner = [s for s in _size_guard(rest[0], what)]
-    if len(inner) != 2:
-        _fail(rest[0], f"{what}: two statements expected under `if size:`")
-    a = _assign(inner[0])
-    if a is None or a[0] != "codeslice" or not isinstance(a[1], ast.IfExp) or _u(a[1].test) != "offset.is_concrete":
-        _fail(inner[0], f"{what}: `codeslice = ex.pgm.slice(..) if offset.is_concrete else <symbolic slice>` expected")
-    call = a[1].body
-    if not (isinstance(call, ast.Call) and _u(call.func) == "ex.pgm.slice"):
-        _fail(call, f"{what}: ex.pgm.slice(..) expected for a concrete offset")
-    a1, a2 = _call_args(call, ["start", "size"])
-    dst = _set_mslice_call(inner[1], what, "codeslice")
-    _emit_copy(out, "codecopy", params, Ctx(params), rest[0].test, a1, a2, dst, "OP_CODECOPY (concrete offset): `if size:` ; ex.pgm.slice(a1, a2) ; state.set_mslice(dst, codeslice)")
+        _fail(rest[0], f"{what}: a single guarded copy expected after the operands")
+    test, inner = _guarded(rest[0], what)
+    val, dst = _copy_body(inner, what)
+    if not (isinstance(val, ast.IfExp) and _u(val.test) == f"{params[1]}.is_concrete"):
+        _fail(val, f"{what}: `ex.pgm.slice(..) if {params[1]}.is_concrete else <symbolic slice>` expected")
+    a1, a2 = _src_call(val.body, what, "ex.pgm.slice", ["start", "size"])
+    _emit_copy(out, "codecopy", Ctx(params), test, a1, a2, dst, f"{what} (concrete offset): operands {params}; `if <do>:` ex.pgm.slice(a1, a2) ; state.set_mslice(dst, codeslice)")
 
 
 def tr_extcodecopy(br, out):
     what = "OP_EXTCODECOPY"
-    head = [_u(s) for s in br[:3]]
-    if head != ["account: BV = uint160(state.peek())", "account_alias = self.resolve_address_alias(ex, account, stack)", "state.pop()"]:
+    head = canon(br[:3])
+    if head != ["v0 = uint160(state.peek())", "v1 = self.resolve_address_alias(ex, v0, stack)", "state.pop()"]:
         raise TranslateError(f"T-memwire: {what}: the account operand is not resolved in the modelled way: {head}")
-    params = ["loc", "offset", "size"]
-    rest = _operands(br[3:], params, what, [("int_of",), ("int_of",), ("int_of",)])
+    alias = _assign(br[1])[0]
+    params, rest = _operands(br[3:], 3, what)
     if len(rest) != 1:
-        _fail(rest[0], f"{what}: a single `if size:` expected after the operands")
-    inner = list(_size_guard(rest[0], what))
+        _fail(rest[0], f"{what}: a single guarded copy expected after the operands")
+    test, inner = _guarded(rest[0], what)
     # optional warning for an unknown address
-    if inner and isinstance(inner[0], ast.If) and _u(inner[0].test) == "account_alias is None" and not inner[0].orelse \
+    if inner and isinstance(inner[0], ast.If) and _u(inner[0].test) == f"{alias} is None" and not inner[0].orelse \
             and all(isinstance(s, ast.Expr) and isinstance(s.value, ast.Call) and _u(s.value.func) == "warn" for s in inner[0].body):
         inner = inner[1:]
-    if len(inner) != 3:
-        _fail(rest[0], f"{what}: `account_code = ..; codeslice = ..; state.set_mslice(..)` expected under `if size:`")
-    a = _assign(inner[0])
-    if a is None or a[0] != "account_code" or _u(a[1]) != "ex.code.get(account_alias)":
-        _fail(inner[0], f"{what}: `account_code = ex.code.get(account_alias)` expected")
-    b = _assign(inner[1])
-    if b is None or b[0] != "codeslice" or not isinstance(b[1], ast.IfExp) or _u(b[1].test) != "account_code is not None":
-        _fail(inner[1], f"{what}: `codeslice = account_code.slice(..) if account_code is not None else ByteVec().slice(..)` expected")
-    call, alt = b[1].body, b[1].orelse
-    if not (isinstance(call, ast.Call) and _u(call.func) == "account_code.slice"):
-        _fail(call, f"{what}: account_code.slice(..) expected")
-    if not (isinstance(alt, ast.Call) and _u(alt.func) == "ByteVec().slice"):
-        _fail(alt, f"{what}: ByteVec().slice(..) expected for an account without code")
-    a1, a2 = _call_args(call, ["start", "size"])
-    n1, n2 = _call_args(alt, ["start", "stop"])
-    dst = _set_mslice_call(inner[2], what, "codeslice")
+    a = _assign(inner[0]) if inner else None
+    if a is None or _u(a[1]) != f"ex.code.get({alias})":
+        _fail(inner[0] if inner else rest[0], f"{what}: `<account code> = ex.code.get({alias})` expected")
+    acct = a[0]
+    val, dst = _copy_body(inner[1:], what)
+    if not (isinstance(val, ast.IfExp) and _u(val.test) == f"{acct} is not None"):
+        _fail(val, f"{what}: `{acct}.slice(..) if {acct} is not None else ByteVec().slice(..)` expected")
+    a1, a2 = _src_call(val.body, what, f"{acct}.slice", ["start", "size"])
+    n1, n2 = _src_call(val.orelse, what, "ByteVec().slice", ["start", "stop"])
     c = Ctx(params)
-    _emit_copy(out, "extcodecopy", params, c, rest[0].test, a1, a2, dst, "OP_EXTCODECOPY: `if size:` ; account_code.slice(a1, a2) ; state.set_mslice(dst, codeslice)")
-    out.add("extcodecopy_none_start", params, "Z", c.z(n1), "OP_EXTCODECOPY, account without code: ByteVec().slice(start, stop)")
+    _emit_copy(out, "extcodecopy", c, test, a1, a2, dst, f"{what}: operands {params} (after the address); `if <do>:` account_code.slice(a1, a2) ; state.set_mslice(dst, codeslice)")
+    out.add("extcodecopy_none_start", params, "Z", c.z(n1), f"{what}, account without code: ByteVec().slice(start, stop)")
     out.add("extcodecopy_none_stop", params, "Z", c.z(n2))
 
 
 def tr_returndatacopy(br, out):
     what = "OP_RETURNDATACOPY"
-    params = ["loc", "offset", "size"]
-    rest = _operands(br, params, what, [("mloc",), ("int_of",), ("int_of",)])
+    params, rest = _operands(br, 3, what)
     if len(rest) != 2:
-        _fail(rest[0], f"{what}: the bounds check and `if size:` expected after the operands")
+        _fail(rest[0], f"{what}: the bounds check and one guarded copy expected after the operands")
     g = rest[0]
     if not (isinstance(g, ast.If) and not g.orelse and len(g.body) == 1 and isinstance(g.body[0], ast.Raise)
             and isinstance(g.body[0].exc, ast.Call) and _u(g.body[0].exc.func) == "OutOfBoundsRead"):
         _fail(g, f"{what}: `if <out of bounds>: raise OutOfBoundsRead(..)` expected before the copy")
+    if "rdsize" in params:
+        _fail(g, f"{what}: operand name clash")
     c4 = Ctx(params + ["rdsize"], table={"ex.returndatasize()": "rdsize"})
-    out.add("returndatacopy_oob", c4.params, "bool", c4.b(g.test), "OP_RETURNDATACOPY: raise OutOfBoundsRead when this holds (rdsize = ex.returndatasize())")
-    inner = _size_guard(rest[1], what)
-    if len(inner) != 2:
-        _fail(rest[1], f"{what}: two statements expected under `if size:`")
-    a = _assign(inner[0])
-    if a is None or a[0] != "data" or not (isinstance(a[1], ast.Call) and _u(a[1].func) == "ex.returndata().slice"):
-        _fail(inner[0], f"{what}: `data = ex.returndata().slice(..)` expected")
-    a1, a2 = _call_args(a[1], ["start", "stop"])
-    dst = _set_mslice_call(inner[1], what, "data")
-    _emit_copy(out, "returndatacopy", params, Ctx(params), rest[1].test, a1, a2, dst, "OP_RETURNDATACOPY: `if size:` ; ex.returndata().slice(a1, a2) ; state.set_mslice(dst, data)")
+    out.add("returndatacopy_oob", c4.params, "bool", c4.b(g.test), f"{what}: operands {params}; raise OutOfBoundsRead when this holds (rdsize = ex.returndatasize())")
+    test, inner = _guarded(rest[1], what)
+    val, dst = _copy_body(inner, what)
+    a1, a2 = _src_call(val, what, "ex.returndata().slice", ["start", "stop"])
+    _emit_copy(out, "returndatacopy", Ctx(params), test, a1, a2, dst, f"{what}: `if <do>:` ex.returndata().slice(a1, a2) ; state.set_mslice(dst, data)")
 
 
 def tr_mcopy(br, out):
     what = "OP_MCOPY"
-    params = ["dst_offset", "src_offset", "size"]
-    rest = _operands(br, params, what, [("int_of",), ("int_of",), ("int_of",)])
+    params, rest = _operands(br, 3, what)
     if len(rest) != 1:
-        _fail(rest[0], f"{what}: a single `if size:` expected after the operands")
-    inner = _size_guard(rest[0], what)
-    if len(inner) != 2:
-        _fail(rest[0], f"{what}: two statements expected under `if size:`")
-    a = _assign(inner[0])
-    if a is None or a[0] != "data" or not (isinstance(a[1], ast.Call) and _u(a[1].func) == "state.mslice"):
-        _fail(inner[0], f"{what}: `data = state.mslice(..)` expected")
-    a1, a2 = _call_args(a[1], ["loc", "size"])
-    dst = _set_mslice_call(inner[1], what, "data")
-    _emit_copy(out, "mcopy", params, Ctx(params), rest[0].test, a1, a2, dst, "OP_MCOPY: `if size:` ; state.mslice(a1, a2) ; state.set_mslice(dst, data)")
+        _fail(rest[0], f"{what}: a single guarded copy expected after the operands")
+    test, inner = _guarded(rest[0], what)
+    val, dst = _copy_body(inner, what)
+    a1, a2 = _src_call(val, what, "state.mslice", ["loc", "size"])
+    _emit_copy(out, "mcopy", Ctx(params), test, a1, a2, dst, f"{what}: operands {params}; `if <do>:` state.mslice(a1, a2) ; state.set_mslice(dst, data)")
 
 
 def tr_msize(br, out):
     body = list(br)
-    if len(body) != 3:
-        raise TranslateError("T-memwire: OP_MSIZE: three statements expected")
-    a = _assign(body[0])
-    if a is None or a[0] != "size" or _u(a[1]) != "len(state.memory)":
-        _fail(body[0], "OP_MSIZE: `size = len(state.memory)` expected")
-    b = _assign(body[1])
-    if b is None or b[0] != "size":
-        _fail(body[1], "OP_MSIZE: `size = <rounding>` expected")
-    if _u(body[2]) != "state.push_any(size)":
-        _fail(body[2], "OP_MSIZE: `state.push_any(size)` expected")
-    out.add("msize_round", ["size"], "Z", Ctx(["size"]).z(b[1]), "OP_MSIZE: size = len(state.memory) rounded")
+    if len(body) < 2:
+        raise TranslateError("T-memwire: OP_MSIZE: too short")
+    c = Ctx(["size"])
+    for st in body[:-1]:
+        a = _assign(st)
+        if a is None:
+            _fail(st, "OP_MSIZE: unexpected statement")
+        if _u(a[1]) == "len(state.memory)":
+            c.env[a[0]] = "size"
+        else:
+            c.bind(a[0], a[1])
+    last = body[-1]
+    if not (isinstance(last, ast.Expr) and isinstance(last.value, ast.Call) and _u(last.value.func) == "state.push_any" and len(last.value.args) == 1):
+        _fail(last, "OP_MSIZE: `state.push_any(<size>)` expected last")
+    out.add("msize_round", ["size"], "Z", c.z(last.value.args[0]), "OP_MSIZE: what is pushed, size = len(state.memory)")
 
 
 PLAIN = {
-    "OP_MSTORE": ["loc: int = ex.mloc(check_size=True)", "val: BV = state.popi()", "state.memory.set_word(loc, val)"],
-    "OP_MLOAD": ["loc: int = ex.mloc(check_size=True)", "state.push_any(state.memory.get_word(loc))"],
-    "OP_MSTORE8": ["loc: int = ex.mloc(check_size=True)", "val: Word = state.pop()", "state.memory.set_byte(loc, uint8(val))"],
+    "OP_MSTORE": ["v0 = ex.mloc(check_size=True)", "v1 = state.popi()", "state.memory.set_word(v0, v1)"],
+    "OP_MLOAD": ["v0 = ex.mloc(check_size=True)", "state.push_any(state.memory.get_word(v0))"],
+    "OP_MSTORE8": ["v0 = ex.mloc(check_size=True)", "v1 = state.pop()", "state.memory.set_byte(v0, uint8(v1))"],
 }
 
 # statements of SEVM.call that carry the memory side of a message call, in this order
@@ -525,7 +529,7 @@ def translate(src_text):
     tr_mcopy(the_branch(br, "OP_MCOPY"), out)
     tr_msize(the_branch(br, "OP_MSIZE"), out)
     for name, want in PLAIN.items():
-        got = [_u(s) for s in the_branch(br, name)]
+        got = canon(the_branch(br, name))
         if got != want:
             raise TranslateError(f"T-memwire: {name}: body differs from the modelled shape: {got}")
     tr_call_anchors(tree)
@@ -545,7 +549,7 @@ def translate(src_text):
 
 
 def selfcheck(info):
-    """the generated expressions, evaluated in Python, against the imported functions on a small grid"""
+    """State.mslice of the imported module against zero-padded reads on a small grid"""
     bad = []
     try:
         from halmos.bytevec import ByteVec
